@@ -34,8 +34,8 @@ ASSUMPTIONS = [
     "free-form die output and metadata key lines are collapsed to one line each before traces are compared",
 ]
 BOUNDS = {
-    "quick": "<=2 Python requests per session from 12 request kinds, <=2 daemon-side events per phase/metadata run, channel capacity 4; every model path replayed on the real pair; 8 ordinary real sessions checked against the model",
-    "thorough": "<=3 Python requests per session (third request from the control requests), <=2 daemon-side events, channel capacity 4; every model path replayed; 8 ordinary real sessions",
+    "quick": "<=2 Python requests per session: first from all 12 request kinds x daemon-side event scripts (<=2 events + terminal per phase/metadata run), second from the 9 control requests; channel capacity 4; every model session replayed on the real pair; 8 ordinary real sessions checked against the model",
+    "thorough": "<=2 Python requests per session, both from all 12 request kinds x daemon-side event scripts (<=2 events + terminal); channel capacity 4; every model session replayed on the real pair; 8 ordinary real sessions",
 }
 MAXTASKSPERCHILD = 1
 CHUNK = {"quick": 12, "thorough": 24}
@@ -48,22 +48,26 @@ def _defs(tier):
 
     facts = proto.facts()
     defs = proto.eq_flags(facts["pairs"]) + [
-        f"NREQ={2 if tier == 'quick' else 3}",
+        "NREQ=2",
+        f"FULLREQ={1 if tier == 'quick' else 2}",
         "NEV=2",
         f"FAIL_EXTRA={facts['fail_extra']}",
         f"SHUTDOWN_KILLS={facts['shutdown_kills']}",
     ]
-    if tier == "thorough":
-        defs.append("THIRD_CONTROL_ONLY")
     return facts, defs
 
 
 def SETUP(tier):
     from verif.engines import proto
 
+    import signal
+
     facts, defs = _defs(tier)
     proto.ensure_build(defs, tag="safety")
     proto.trails(defs)
+    import pkgcore.ebuild.processor  # noqa: F401  (installs its SIGTERM handler on import ...)
+
+    signal.signal(signal.SIGTERM, signal.SIG_DFL)  # ... which must not be inherited by the pool workers
 
 
 def tasks(tier):
@@ -74,6 +78,10 @@ def tasks(tier):
     n = len(tr["trails"])
     out = [("model", tier)]
     c = CHUNK[tier]
+    flt = os.environ.get("VERIF_C35_FILTER")  # debugging aid only (mutant demonstrations): replay matching sessions
+    if flt:
+        idx = [i for i, t in enumerate(tr["trails"]) if flt in json.dumps(t["session"])]
+        return out + [("replay-list", tier, idx[j : j + 4]) for j in range(0, len(idx), 4)]
     out += [("replay", tier, i, min(i + c, n)) for i in range(0, n, c)]
     out += [("accept", tier, i) for i in range(len(ORDINARY))]
     return out
@@ -110,7 +118,10 @@ def _compare(variant, session, real, r):
         i = 0
         while i < min(len(real), len(ev)) and real[i] == ev[i]:
             i += 1
-        msgs.append(f"real pair diverges from model path at event {i}: model {ev[i:i+3]} real {real[i:i+3]} (session {session})")
+        msgs.append(
+            f"real pair diverges from model path at event {i}: model {ev[max(0,i-1):i+3]} real {real[max(0,i-1):i+3]} "
+            f"(session {session}; real outcomes {r['outcomes']}, deadlock {r['deadlock']})"
+        )
     if bool(r["deadlock"]) != bool(variant["deadlock"]):
         msgs.append(
             f"deadlock disagreement: model {'deadlocks' if variant['deadlock'] else 'terminates'}, "
@@ -192,9 +203,9 @@ def work(task):
                 "traces_validated_against_impl": 0,
             },
         }
-    if kind == "replay":
-        lo, hi = task[2], task[3]
-        tr = proto.trails(defs)["trails"][lo:hi]
+    if kind in ("replay", "replay-list"):
+        alltr = proto.trails(defs)["trails"]
+        tr = alltr[task[2] : task[3]] if kind == "replay" else [alltr[i] for i in task[2]]
         pair = proto.RealPair()
         classes, viol, samples = {}, [], []
         ok = 0
@@ -319,6 +330,9 @@ def _ordinary(pair, body, nreq):
     ebp = processor.request_ebuild_processor(userpriv=False, sandbox=False, fd_pipes={0: pair.devnull, 1: pair.devnull, 2: pair.devnull})
     pid = ebp.pid
     processor._verif_c35_pid = pid
+    if not pair._wait_idle(ebp, pid, limit=300.0):
+        pair._cleanup(ebp, pid)
+        raise RuntimeError("daemon did not reach its main loop")
     open(pair.trace_path, "w").close()
     try:
         try:
